@@ -202,6 +202,74 @@ def fresh_keys(spec, base):
     return go(spec)
 
 
+def deser_cases(rng, a, b, sb, want, desc):
+    """content_id / is_equal of nodes that came into being by DESERIALIZATION are decided by their content like those of
+    any other node: (1) `b` rebuilt from its own payload after the originals were detached, same and different
+    ID_DIGEST_SIZE than the one the payload was written under (a stored dump outlives a configuration change);
+    (2) a payload whose root property was edited (as_obj accepts any well-formed mapping) equals a fresh node of the
+    edited content and differs from the unedited one"""
+    import gc
+    import pyoak.config as cfg
+    try:
+        payload = b.as_dict()
+        pnode.ASTNode.as_obj(payload)      # b still registered: answered by the originals, nothing is created
+    except Exception:  # noqa  (an ill-typed mutant the value codec refuses: not serializable at all)
+        return
+    old_cid = b.content_id
+    b.detach()
+    size0 = cfg.ID_DIGEST_SIZE
+    try:
+        b2 = pnode.ASTNode.as_obj(payload)
+        if not zoo.spec_content_eq(zoo.to_spec(b2), sb):
+            # the value codec coerced an ill-typed property (e.g. True in an int field): a round-trip matter (C04),
+            # the node read back simply has another content
+            b2.detach()
+            return
+        bad = None
+        if (a.content_id == b2.content_id) != want or a.is_equal(b2) != want:
+            bad = (f"a vs deserialized b: content_id equal={a.content_id == b2.content_id}, is_equal={a.is_equal(b2)}, "
+                   f"content-equal={want}")
+        elif b2.content_id != old_cid:
+            bad = "the content_id of a node rebuilt from its own payload differs from the original's"
+        yield Case("deser:pair", None, None, True, desc + " [b rebuilt from b.as_dict() after b.detach()]", oracle_fail=bad,
+                   sig="cid|deser|pair")
+        b2.detach()
+        del b2
+        # another digest size at reading time
+        cfg.ID_DIGEST_SIZE = rng.choice([s for s in (4, 6, 16) if s != size0])
+        b3 = pnode.ASTNode.as_obj(payload)
+        fresh = zoo.build(fresh_keys(sb, 3 * 10**4))
+        bad = None
+        if b3.content_id != fresh.content_id or not b3.is_equal(fresh) or not fresh.is_equal(b3):
+            bad = (f"deserialized under ID_DIGEST_SIZE={cfg.ID_DIGEST_SIZE} (payload written under {size0}): content_id "
+                   f"{b3.content_id} but an equal node built now has {fresh.content_id}")
+        yield Case("deser:digest-size", None, None, True, desc + f" [payload of b read back under ID_DIGEST_SIZE={cfg.ID_DIGEST_SIZE}]",
+                   oracle_fail=bad, sig="cid|deser|digest-size")
+        b3.detach()
+        fresh.detach()
+        del b3, fresh
+    finally:
+        cfg.ID_DIGEST_SIZE = size0
+    # edited payload (root property `v`, comparable int in most zoo classes)
+    if isinstance(payload.get("v"), int) and not isinstance(payload.get("v"), bool) and "v" in sb[1]:
+        p2 = dict(payload)
+        p2["v"] = payload["v"] + 1000
+        s2 = (sb[0], dict(sb[1], v=sb[1]["v"] + 1000)) + tuple(sb[2:])
+        try:
+            e1 = pnode.ASTNode.as_obj(p2)
+            e2 = zoo.build(fresh_keys(s2, 5 * 10**4))
+        except Exception:  # noqa
+            return
+        bad = None
+        if e1.content_id != e2.content_id or not e1.is_equal(e2):
+            bad = "a node read from an edited payload is not content-equal to a fresh node with the edited content"
+        elif e1.content_id == old_cid:
+            bad = "a node read from an edited payload kept the content_id of the unedited content"
+        yield Case("deser:edited", None, None, True, desc + " [payload of b with root v += 1000]", oracle_fail=bad, sig="cid|deser|edited")
+        e1.detach()
+        e2.detach()
+
+
 def cases(rng: random.Random, tier: str):
     n_pairs = 250 if tier == "quick" else 6000
     rec = _Rec(pnode.hashlib)
@@ -210,7 +278,7 @@ def cases(rng: random.Random, tier: str):
     cross_ids: list = []
     try:
         for _ in range(n_pairs):
-            g = zoo.Gen(rng, origins=True, serial=True)
+            g = zoo.Gen(rng, origins=True, serial=_ % 3 != 0)
             a = g.tree(rng.choice([1, 2, 4, 8, 16, 30]))
             sa = zoo.to_spec(a)
             try:
@@ -268,6 +336,9 @@ def cases(rng: random.Random, tier: str):
                 cross.append(sa)
                 cross_ids.append(a.content_id)
             rec.table.clear()
+            if _ % 3 == 0:
+                yield from deser_cases(rng, a, b, sb, want, desc)
+                rec.table.clear()
         # classes are compared by identity, not by name: a subclass keeping its parent's name is another class
         for v in range(3):
             b0, s0 = _ShadeBase(v=v), Shade(v=v)
